@@ -255,6 +255,8 @@ def gen_log(rng):
     sel = selected_contest(case)
     alts = [c for c in sel["candidates"] if c != sel["winner"][0]]
     case["alt"] = rng.choice(alts) if alts else None
+    if rng.chance(0.2):
+        case["amended"] = True
     return case
 
 
@@ -296,6 +298,28 @@ def impl_log(case):
         else:
             (winner, wname), nonw, WOLosers, IRVElims = parseAssertions(log, copy.deepcopy(case["candfile"]), case["contest_id"])
     non = [c[0] for c in nonw]
+    if case.get("amended") and len(WOLosers) + len(IRVElims) > 0:
+        # the assertion lists are AMENDED IN PLACE between two uses (a proved flag updated, an assertion replaced: the
+        # entries are tuples, so `L[i] = ...` is the only way): first the trees of an earlier state of the SAME list
+        # objects are built (every entry's candidate replaced by another candidate, flags flipped), then each entry is
+        # put to its real value in place.  A tree reflects the lists as they are when it is built.
+        real_wo, real_irv = list(WOLosers), list(IRVElims)
+        allc = non + [winner]
+        rot = {c: allc[(i + 1) % len(allc)] for i, c in enumerate(allc)}
+        for i, (l, w, p) in enumerate(real_wo):
+            WOLosers[i] = (rot.get(l, l), rot.get(w, w), not p)
+        for i, (x, E, p) in enumerate(real_irv):
+            IRVElims[i] = (rot.get(x, x), set(rot.get(e, e) for e in E), not p)
+        for c in nonw:
+            S = set(non).copy(); S.add(winner); S.remove(c[0])
+            try:
+                buildRemainingTreeAsLists(c[0], S, WOLosers, IRVElims)
+            except Exception:  # noqa
+                pass
+        for i, e in enumerate(real_wo):
+            WOLosers[i] = e
+        for i, e in enumerate(real_irv):
+            IRVElims[i] = e
     alts = []
     for c in nonw:                      # as buildPrintedResults does
         S = set(non).copy()
